@@ -73,6 +73,13 @@ def handleRw : List String → String
         else "noparse"
       | _, _ => "noparse"
     | _, _ => "bad-op"
+  | ["junction", h1, h2] =>   -- raw JavaScript segment, then the (unstripped) generated segment appended after it
+    match parseHex h1, parseHex h2 with
+    | some raw, some next =>
+      match removeWhitespace next true with
+      | some o => s!"safe={b2s (junctionSafe raw o)} rawsafe={b2s (rawEndsOutsideLineComment raw)}"
+      | none => "panic"
+    | _, _ => "bad-op"
   | ["items", h] =>       -- the model's item-level algorithm, for model-vs-spec smoke runs
     match parseHex h with
     | some s => match lex s with
